@@ -5,6 +5,9 @@
 (*             (the token lacks the e-mail claim, so the profile is consulted)      *)
 (*   bearer  : JWKS (first verification of a bearer token)                          *)
 (*   refresh : token endpoint (refresh_token grant)                                 *)
+(*   validate: a stale session whose refresh the provider refuses is re-validated    *)
+(*             by a proxy that has not fetched the signing keys yet (restarted       *)
+(*             proxy, surviving cookie): JWKS                                        *)
 (* A case replaces every response of one call kind by one response kind.            *)
 EXTENDS Naturals, Sequences, FiniteSets, TLC, Json, CSV
 
@@ -12,7 +15,7 @@ CONSTANTS Tier
 
 Vocab == [ atoms |-> [ none |-> "" ] ]
 
-Calls == [login |-> {"token_code", "keys", "userinfo"}, bearer |-> {"keys"}, refresh |-> {"token_refresh", "userinfo"}]
+Calls == [login |-> {"token_code", "keys", "userinfo"}, bearer |-> {"keys"}, refresh |-> {"token_refresh", "userinfo"}, validate |-> {"keys"}]
 \* the profile endpoint is consulted for claims the token lacks: which one it lacks decides how far a failed lookup can get
 \* (without e-mail no session can exist at all; without groups a lenient lookup would silently yield a session without groups)
 Lacks(call) == IF call = "userinfo" THEN {"email", "groups"} ELSE {"nothing"}
@@ -47,7 +50,9 @@ Next == UNCHANGED c
 \* "extended": the stored session carries tokens from the failed exchange
 CaseRec == [fam |-> "idpfaults", in |-> c,
             req |-> (IF Tolerated(c.flow, c.call, c.kind) THEN [panic |-> FALSE, nextOK |-> TRUE]
-                     ELSE [created |-> FALSE, extended |-> FALSE, panic |-> FALSE, nextOK |-> TRUE])]
+                     ELSE [created |-> FALSE, extended |-> FALSE, panic |-> FALSE, nextOK |-> TRUE]
+                          \* (control against vacuity: with the keys available the same session IS re-validated and served)
+                          @@ (IF c.flow = "validate" THEN [controlServed |-> TRUE] ELSE <<>>))]
 EmitVocab == JsonSerialize("vocab.json", Vocab)
 EmitCase  == CSVWrite("%1$s", <<ToJson(CaseRec)>>, "cases.ndjson")
 =============================================================================
